@@ -20,9 +20,18 @@ PROPS["C15"] = dict(
          "(thorough 2^21-3..2^21+2), all lists of length 2 (thorough 3) over 26 representative items; rapid: the same value "
          "classes drawn at random plus random 64-bit values and random content (text, arbitrary and hostile bytes, i.e. "
          "invalid UTF-8). Not generated: byte strings >= 2^28 bytes (5-byte prefix; 256 MB per value). "
+         "Writer histories (second case type): 1 goroutine (writers units) or 2..4 goroutines at the same time (writers_concurrent, "
+         "-race in the thorough tier, a quarter of the cases with GOMAXPROCS(1)), each with ONE ObjectsWriter value whose exported "
+         "Writer field is re-pointed before every item to one of 1..4 destinations of its own: bytes.Buffer (io.StringWriter), a "
+         "plain io.Writer, a framing writer whose Write sends p as one length-prefixed frame through a second ObjectsWriter, a "
+         "writer that yields the processor inside Write; oracle: every write returns (size, nil) and every destination received "
+         "exactly the concatenation of the Marshal encodings of the items directed to it (frame bodies for the framing writer); "
+         "exhaustive over all lists of <= 3 (thorough 4) steps from 9 items x 4 destinations, rapid lists of 1..12 steps. "
          "non-trivial = some varint value or byte-string length is within 2 of 2^(7k) (or the varint is >= 2^64-3), or a "
          "fixed-width value is within 2 of 2^(8k) or of the top of its range; rejected short destinations are exercised by "
-         "every case and counted in short_destination_rejections_checked; distinct = FNV hash of the case's JSON form",
+         "every case and counted in short_destination_rejections_checked; a writer history is non-trivial when the Writer field "
+         "changed between two items, or a destination is not a bytes.Buffer, or more than one goroutine wrote; "
+         "distinct = FNV hash of the case's JSON form",
     assumptions=["uint is 64 bits wide on the platform of the run (values up to 2^64-1 are given to MarshalUint)",
                  "nothing is asserted about the byte format itself (only round trip, sizes, agreement of the two writers)",
                  "newBuf=false 'aliases the input' is read as: a non-empty result starts at source[prefix length]; empty results carry no aliasing claim",
@@ -31,6 +40,10 @@ PROPS["C15"] = dict(
     units=[
         dict(name="exhaustive", run="^TestC15Exhaustive$", shards=(2, 8), timeout=(200, 600)),
         dict(name="rapid", run="^TestC15Rapid$", checks=(4000, 60000), shards=(8, 16), timeout=(200, 900)),
+        dict(name="writers_exhaustive", run="^TestC15WritersExhaustive$", shards=(1, 4), timeout=(200, 600)),
+        dict(name="writers", run="^TestC15RapidWriters$", checks=(10000, 200000), shards=(2, 8), timeout=(200, 600)),
+        dict(name="writers_concurrent", run="^TestC15RapidWritersConcurrent$", checks=(5000, 40000), shards=(2, 8), timeout=(200, 900),
+             race=(False, True)),
         dict(name="fuzz", run="^FuzzC15$", fuzz=(None, "^FuzzC15$"), enabled=(False, True), serial=True, shards=1, timeout=(200, 400),
              args=([], ["-test.fuzz=^FuzzC15$", "-test.fuzztime=75s", "-test.fuzzcachedir={rundir}/fuzzcache", "-test.parallel=16"]),
              env={"VERIF_STATS_PERPID": "1"}),
